@@ -381,6 +381,11 @@ func (t *Time) UnmarshalText(b []byte) error {
 		// time.Parse accepts a fractional second even if the layout has none
 		return fmt.Errorf("webdav: invalid HTTP date %q: fractional second", b)
 	}
+	if bytes.IndexByte(b, ',') >= 0 && !bytes.HasSuffix(b, []byte(" GMT")) {
+		// The layout of the obsolete RFC 850 form has a zone field: any
+		// abbreviation is accepted there and read as if it was GMT
+		return fmt.Errorf("webdav: invalid HTTP date %q: time zone isn't GMT", b)
+	}
 	*t = Time(tt)
 	return nil
 }
